@@ -1,7 +1,7 @@
 """C11 — channels and signals: every message delivered once, in order, no stranded peer (structural part)."""
 from core import strip, strip_parens, is_field, order_ge, key_str, key_mentions
 from facts import AnalysisBroken
-from rules import (check_init, through_local, nodeset, callpred, atom_from, reach, ev, Unevaluable, ret_const, is_var_load)
+from rules import (field_load, check_init, through_local, nodeset, callpred, atom_from, reach, ev, Unevaluable, ret_const, is_var_load)
 from props import c01, c16
 
 EXPLANATION = (
@@ -44,7 +44,7 @@ def check_send_recv(ctx, P):
             for r in raises:
                 if f.dominated_by(r, nodeset(pubs)) is not None:
                     bad = bad or "the raise is reachable before the message is published"
-            isrs = lambda n: (n.k == "ImplicitCastExpr" and n.ck == "LValueToRValue" and strip(n).k == "MemberExpr" and strip(n).field == "ready_signal")
+            isrs = field_load("ready_signal")
             for p in pubs:
                 if reach(f, ["exit"], atom_from([(isrs, 4096)]), start=p, barrier=nodeset(raises)):
                     bad = bad or "with a signal attached, a path returns after publishing without raising"
